@@ -52,10 +52,13 @@ def pred_bdd(aut, spec):
     kind = spec[0]
     if kind == 'expr':
         return aut.add_expr(spec[1])
-    assert kind == 'tt', spec
+    assert kind in ('tt', 'ttneg'), spec
     _, names, mask = spec
     rd = ro.Reader(aut, names)
-    return rd.from_rows(ro.mask_rows(rd.space(), mask))
+    space = rd.space()
+    if kind == 'ttneg':
+        mask = ~mask & ((1 << len(space)) - 1)
+    return rd.from_rows(ro.mask_rows(space, mask))
 
 
 def build_game(case):
